@@ -162,4 +162,204 @@ theorem filterLoop_spec (fn : α → Nat → Bool) (xs : List α) (i : Nat) (pre
       simp only [Impl.filterLoop, hv, if_false, ih', Bool.false_eq_true]
       simp [List.zipIdx_cons, hv]
 
+theorem maxLoop_eq (xs : List Int) (r : Int) : Impl.maxLoop xs r = xs.foldl max r := by
+  induction xs generalizing r with
+  | nil => rfl
+  | cons v t ih =>
+    simp only [Impl.maxLoop, List.foldl_cons]
+    by_cases h : v > r
+    · have : max r v = v := by omega
+      simp [h, ih, this]
+    · have : max r v = r := by omega
+      simp [h, ih, this]
+
+theorem minLoop_eq (xs : List Int) (r : Int) : Impl.minLoop xs r = xs.foldl min r := by
+  induction xs generalizing r with
+  | nil => rfl
+  | cons v t ih =>
+    simp only [Impl.minLoop, List.foldl_cons]
+    by_cases h : v < r
+    · have : min r v = v := by omega
+      simp [h, ih, this]
+    · have : min r v = r := by omega
+      simp [h, ih, this]
+
+theorem minMaxLoop_eq (xs : List Int) (lo hi : Int) (h : lo ≤ hi) :
+    Impl.minMaxLoop xs lo hi = (xs.foldl min lo, xs.foldl max hi) := by
+  induction xs generalizing lo hi with
+  | nil => rfl
+  | cons v t ih =>
+    simp only [Impl.minMaxLoop, List.foldl_cons]
+    by_cases h1 : v < lo
+    · have e1 : min lo v = v := by omega
+      have e2 : max hi v = hi := by omega
+      simp [h1, ih v hi (by omega), e1, e2]
+    · by_cases h2 : v > hi
+      · have e1 : min lo v = lo := by omega
+        have e2 : max hi v = v := by omega
+        simp [h1, h2, ih lo v (by omega), e1, e2]
+      · have e1 : min lo v = lo := by omega
+        have e2 : max hi v = hi := by omega
+        simp [h1, h2, ih lo hi h, e1, e2]
+
+/-- what `Spec.max` means: the result is an element and an upper bound (non-empty list) -/
+theorem foldl_max_ge (xs : List Int) (r : Int) : r ≤ xs.foldl max r ∧ ∀ x ∈ xs, x ≤ xs.foldl max r := by
+  induction xs generalizing r with
+  | nil => simp
+  | cons v t ih =>
+    have h := ih (max r v)
+    simp only [List.foldl_cons, List.mem_cons]
+    refine ⟨by omega, ?_⟩
+    rintro x (rfl | hx)
+    · omega
+    · exact h.2 x hx
+
+theorem getN_append_cons2 (pre : List α) (a b : α) (rest : List α) :
+    getN (pre ++ a :: b :: rest) (pre.length + 1) = .ok b := by
+  have := getN_append_cons (pre ++ [a]) b rest
+  simpa using this
+
+theorem dedupeLoop_spec [DecidableEq α] (pre rest acc : List α) :
+    Impl.dedupeLoop (pre ++ rest) (pre ++ rest).length rest.length pre.length acc
+      = .ok (acc ++ Spec.dedupe rest) := by
+  induction rest generalizing pre acc with
+  | nil => simp [Impl.dedupeLoop, Spec.dedupe]
+  | cons a t ih =>
+    cases t with
+    | nil =>
+      have h : ¬ (pre.length + 1 < (pre ++ [a]).length) := by simp
+      simp only [Impl.dedupeLoop, h, if_false, pure_eq_ok, bind_ok, getN_append_cons, List.length_cons,
+        List.length_nil, Spec.dedupe]
+      simp [Impl.dedupeLoop]
+    | cons b u =>
+      have h : pre.length + 1 < (pre ++ a :: b :: u).length := by simp
+      have ih' := ih (pre ++ [a])
+      simp only [List.append_assoc, List.singleton_append, List.length_append, List.length_cons,
+        List.length_nil, Nat.zero_add] at ih'
+      simp only [List.length_cons] 
+      rw [Impl.dedupeLoop]
+      simp only [h, if_true, getN_append_cons, getN_append_cons2, bind_ok, pure_eq_ok]
+      by_cases hab : a = b
+      · subst hab
+        simp only [decide_true, if_true, Spec.dedupe]
+        have := ih' acc
+        simp only [List.length_append, List.length_cons] at this ⊢
+        exact this
+      · simp only [hab, decide_false, Bool.false_eq_true, if_false, Spec.dedupe]
+        have := ih' (acc ++ [a])
+        simp only [List.length_append, List.length_cons, List.append_assoc, List.singleton_append] at this ⊢
+        exact this
+
+theorem reverseLoop_spec (list done todo pad : List α) (hl : list = (done ++ todo).reverse)
+    (hp : pad.length = todo.length) :
+    Impl.reverseLoop list todo.length done.length (done ++ pad) = .ok (done ++ todo) := by
+  induction todo generalizing done pad with
+  | nil =>
+    cases pad with
+    | nil => simp [Impl.reverseLoop]
+    | cons _ _ => simp at hp
+  | cons x t ih =>
+    cases pad with
+    | nil => simp at hp
+    | cons p pad' =>
+      have hlist : list = t.reverse ++ x :: done.reverse := by simp [hl]
+      have hidx : ((list.length : Int) - ((done.length : Int) + 1)) = ((t.reverse.length : Nat) : Int) := by
+        rw [hlist]; simp
+      have hget : getI list ((list.length : Int) - ((done.length : Int) + 1)) = .ok x := by
+        rw [hidx]
+        have h0 : ¬ (((t.reverse.length : Nat) : Int) < 0) := by omega
+        simp only [getI, h0, if_false, Int.toNat_natCast]
+        rw [hlist]; exact getN_append_cons _ _ _
+      have ih' := ih (done ++ [x]) pad' (by simp [hl]) (by simpa using hp)
+      simp only [List.length_append, List.length_cons, List.length_nil, Nat.zero_add, List.append_assoc,
+        List.singleton_append] at ih'
+      simp only [List.length_cons, Impl.reverseLoop, hget, bind_ok, setN_append_cons]
+      exact ih'
+
+theorem copyFrom_spec (lp todo done pad : List α) (hp : pad.length = todo.length) :
+    Impl.copyFrom (lp ++ todo) todo.length lp.length done.length (done ++ pad) = .ok (done ++ todo) := by
+  induction todo generalizing lp done pad with
+  | nil =>
+    cases pad with
+    | nil => simp [Impl.copyFrom]
+    | cons _ _ => simp at hp
+  | cons x t ih =>
+    cases pad with
+    | nil => simp at hp
+    | cons p pad' =>
+      have ih' := ih (lp ++ [x]) (done ++ [x]) pad' (by simpa using hp)
+      simp only [List.length_append, List.length_cons, List.length_nil, Nat.zero_add, List.append_assoc,
+        List.singleton_append] at ih'
+      simp only [List.length_cons, Impl.copyFrom, getN_append_cons, bind_ok, setN_append_cons]
+      exact ih'
+
+theorem dropWhileLoop_spec (z : α) (f : α → Bool) (pre rest : List α) :
+    Impl.dropWhileLoop z f (pre ++ rest) rest pre.length = .ok (rest.dropWhile f) := by
+  induction rest generalizing pre with
+  | nil => simp [Impl.dropWhileLoop]
+  | cons v t ih =>
+    by_cases hv : f v = true
+    · have ih' := ih (pre ++ [v])
+      simp only [List.length_append, List.length_cons, List.length_nil, Nat.zero_add, List.append_assoc,
+        List.singleton_append] at ih'
+      simp [Impl.dropWhileLoop, hv, ih', List.dropWhile_cons]
+    · have hlen : (((pre ++ v :: t).length : Nat) : Int) - (pre.length : Int) = (((v :: t).length : Nat) : Int) := by
+        simp; omega
+      have hlen2 : (pre ++ v :: t).length - pre.length = (v :: t).length := by simp
+      have hmk : mkI ((((v :: t).length : Nat) : Int)) z = .ok (List.replicate (v :: t).length z) := by
+        have h0 : ¬ ((((v :: t).length : Nat) : Int) < 0) := by omega
+        simp only [mkI, h0, if_false, Int.toNat_natCast]
+      have hc := copyFrom_spec pre (v :: t) [] (List.replicate (v :: t).length z) (by simp)
+      simp only [List.nil_append, List.length_nil] at hc
+      simp only [Impl.dropWhileLoop, hv, Bool.not_false, if_true, hlen, hlen2, hmk, bind_ok, List.dropWhile_cons,
+        Bool.false_eq_true, if_false]
+      simpa using hc
+
+theorem fillLoop_id (src : List α) (pre mid post : List α) (hmid : mid.length = src.length) :
+    fillLoop (fun x _ => x) src pre.length 0 (pre ++ mid ++ post) = .ok (pre ++ src ++ post) := by
+  have := fillLoop_spec (fun (x : α) (_ : Nat) => x) src pre.length 0 pre mid post rfl hmid
+  rw [this]
+  have h := map_zipIdx_fst (fun x : α => x) src 0
+  simp at h
+  simp [h]
+
+theorem totalLen_eq (slices : List (Option (List α))) (n : Nat) :
+    Impl.totalLenLoop slices n = n + ((slices.map (·.getD [])).flatten).length := by
+  induction slices generalizing n with
+  | nil => simp [Impl.totalLenLoop]
+  | cons s rest ih =>
+    cases s with
+    | none => simp [Impl.totalLenLoop, ih]
+    | some sl => simp [Impl.totalLenLoop, ih]; omega
+
+theorem concatLoop_spec (slices : List (Option (List α))) (pre mid post : List α)
+    (hmid : mid.length = ((slices.map (·.getD [])).flatten).length) :
+    ∃ n, Impl.concatLoop slices pre.length (pre ++ mid ++ post)
+      = .ok (n, pre ++ (slices.map (·.getD [])).flatten ++ post) := by
+  induction slices generalizing pre mid with
+  | nil =>
+    have : mid = [] := List.eq_nil_of_length_eq_zero (by simpa using hmid)
+    exact ⟨pre.length, by simp [Impl.concatLoop, this]⟩
+  | cons s rest ih =>
+    cases s with
+    | none =>
+      obtain ⟨n, hn⟩ := ih pre mid (by simpa using hmid)
+      exact ⟨n, by simpa [Impl.concatLoop] using hn⟩
+    | some target =>
+      have hlen : target.length ≤ mid.length := by simp at hmid; omega
+      have hsplit : mid = mid.take target.length ++ mid.drop target.length := (List.take_append_drop _ _).symm
+      have h1 : (mid.take target.length).length = target.length := by simp; omega
+      have hfill := fillLoop_id target pre (mid.take target.length) (mid.drop target.length ++ post) h1
+      obtain ⟨n, hn⟩ := ih (pre ++ target) (mid.drop target.length) (by simp at hmid ⊢; omega)
+      refine ⟨n, ?_⟩
+      have e : pre ++ mid ++ post = pre ++ mid.take target.length ++ (mid.drop target.length ++ post) := by
+        rw [List.append_assoc pre (mid.take _), ← List.append_assoc (mid.take _), List.take_append_drop]
+        simp
+      rw [Impl.concatLoop, e, hfill]
+      simp only [bind_ok]
+      have e2 : pre.length + target.length = (pre ++ target).length := by simp
+      have e3 : pre ++ target ++ (mid.drop target.length ++ post) = pre ++ target ++ mid.drop target.length ++ post := by simp
+      rw [e2, e3, hn]
+      simp
+
 end FpgoVerif.C03
